@@ -6,9 +6,10 @@ import NautilusVerif.Driver.ShiftD
 import NautilusVerif.Driver.Prior
 import NautilusVerif.Driver.ResampleD
 import NautilusVerif.Driver.UnionD
+import NautilusVerif.Driver.CoreD
 open NautilusVerif
 
-def handlers : List (List String → Option String) := [ShiftDriver.handle, PriorDriver.handle, ResampleDriver.handle, UnionDriver.handle]
+def handlers : List (List String → Option String) := [ShiftDriver.handle, PriorDriver.handle, ResampleDriver.handle, UnionDriver.handle, CoreDriver.handle]
 
 def step (line : String) : String :=
   let ws := (line.trimAscii.toString.splitOn " ").filter (· ≠ "")
